@@ -21,6 +21,12 @@ CLAIMED = {
  'C20': ('every _Configuration operation verified against the three-map view (declarations, loaded, flags) from an arbitrary pre-state: lookup precedence, '
          'contains/getattr/holder/_asdict agreement, loading rule with loop invariants, reset, declare, setattr, save_and_restore wrapper on normal and exceptional exits',
          'yaml parsing and file reading trusted; @threads.synchronized taken as locking only; load_flag_values loop not under contract'),
+ 'C04': ('TestExecutor.abort marks the run aborted first, a second abort is a full abort, flags are never cleared; the abort flag is read before every node of an '
+         'abortable sequence is dispatched and a set flag ends the sequence; _stop_phase_executor: stop + reset_stop inside one critical section of the teardown lock '
+         '(unless forced), every acquired lock released on every exit, abort flags untouched; _execute_test_teardown: ABORTED wins when the flag is set at finalization '
+         '(the flag is read after plug tearDown), never PASS; TestState.abort',
+         'sequential order and lock-discipline obligations only: "under no interleaving does the executor deadlock / start a phase after abort returned / run two '
+         'bodies at once" quantifies over schedules and is outside this technique; PhaseExecutor.stop (kill / wait handshake) is used by contract'),
  'C05': ('decision table of PhaseState.finalize (result kind x measurements x stop_on_measurement_fail x diagnosers) with its helpers, result validation in the '
          'phase thread, join_or_die (stored outcome wins, no false timeout), one record per invocation in _execute_phase_once, run_if rules, '
          'repeat loop bound (at most repeat_limit invocations) with loop invariants; skip_phase',
@@ -49,6 +55,11 @@ CLAIMED = {
          'container / attrs / namedtuple recursion of convert_to_base_types is used as a pure function only; the dimensioned-measurement cache, PhaseState._cached / '
          '_update_measurements (functools.partial closures) and json.dumps are outside the subset: two of the three seeded changes for this property are in '
          'those parts and are not detected'),
+ 'C12': ('KillableThread.kill always records the request, never raises into a thread that is not alive, at most one asynchronous raise; KillableThread.run: a kill '
+         'requested before the start prevents the body, the body runs at most once and only inside the running lock, the finish hook runs exactly once on every exit; '
+         'PhaseExecutorThread.join_or_die (stored outcome wins, TIMEOUT only if still alive after the deadline, the thread is killed then)',
+         'virtual time, the bounded delay after the deadline, delivery of the asynchronous exception and what an abandoned body does later are thread-timing matters '
+         'outside this technique; async_raise is used by contract; the monotonic-vs-wall-clock choice is only visible as a changed loop (undecided, not proved)'),
  'C13': ('header = six little-endian words (command, arg0, arg1, length, byte sum, command xor 0xFFFFFFFF), receipt validation '
          '(short/empty header, unknown command, length or checksum mismatch are rejected), payload-after-header on every exit, '
          'every transport write/read inside one critical section of the writer/reader lock',
@@ -64,6 +75,17 @@ CLAIMED = {
          'section of that lock on a non-forced abort; every acquired lock released on every exit',
          'the interleaving clause (an abort landing between any two statements) is outside this technique: only the lock discipline and the order of flag '
          'reads / writes are proved; PhaseExecutor.stop is used by contract (its wait loop is concurrency)'),
+ 'C14': ('routing of an incoming packet by local id (returned to the waiting stream iff addressed to it, else queued on the addressed stream, dropped for unknown '
+         'ids), every device WRTE acknowledged by exactly one OKAY carrying that stream\'s local and remote ids, stream sends carry the stream\'s ids and at most maxdata '
+         'bytes, a host write is split into chunks <= maxdata that concatenate to the data, one WRTE in flight (a write while an OKAY is outstanding is refused and '
+         'an unacknowledged WRTE stays recorded), received WRTE data is buffered exactly once in order, maxdata is the value the device announced',
+         'no deadlock / no lost wake-up / timeouts of blocked readers (read_for_stream, _read_messages_until_true) are schedule-quantified and outside this technique; '
+         'the latter is used by trusted contract'),
+ 'C15': ('remote id set once by the first OKAY and never changed, OKAY / CLSE / WRTE handling of a stream, close from either side answered by exactly one CLSE with '
+         'the stream\'s ids and the id released (closing twice sends nothing), packet types illegal mid-session raise AdbProtocolError (defect found and fixed), '
+         'AdbConnection.__init__ (maxdata, banner split, malformed banner)',
+         'the CNXN / AUTH handshake (connect) and local id allocation (_make_stream_transport: itertools) are not under contract: two of the three seeded changes '
+         'for this property are there and are not detected'),
  'C16': ('response loop (INFO forwarded in order, OKAY payload returned, FAIL / out-of-place DATA or OKAY / unknown header raise the prescribed error), '
          'one "command[:arg]" packet per command, download announcement "download:%08x", image bytes only after DATA with exactly that size, '
          'exactly the image in order in chunks <= chunk size, cumulative progress, progress-callback failures absorbed (coroutine contract); '
@@ -96,6 +118,17 @@ for p in props:
       'level_note': CLAIMED[i][1] + '; trusted base and assumptions are enumerated in the evidence file',
       'technique': 'contract-based deductive verification (sidecar contracts; pyvc generates VCs from the real ASTs; z3/cvc5 discharge)'})
   else:
-    m['not_applicable'].append({'property_id': i, 'reason': 'no check is claimed yet: contracts for this property have not been written/discharged (build order, DESIGN.md section 10); not replaced by another technique'})
+    reasons = {
+      'C11': 'isolation between runs is a whole-heap frame property ("executing a test never mutates anything it was declared with", copies made by copy.deepcopy / attr.evolve / '
+             'data.attr_copy): it needs ownership regions over the descriptor graph and a model of deepcopy that the verifier built here does not have; two concurrent tests are '
+             'schedule-quantified. No contract within reach decides it; not replaced by another technique (DESIGN.md section 12.6)',
+      'C18': 'the property quantifies over interleavings of watchers and updaters of SubscribableStateMixin (no lost update, every watcher woken): the monitor invariant could be '
+             'stated per method, but the step from it to "never misses a change" is a concurrency argument this technique does not decide, and the time went into the sequential '
+             'properties; not replaced by another technique (DESIGN.md section 12.6)',
+      'C19': 'log capture runs through the logging module (handler / filter objects, logging.LogRecord, regex substitution of MAC addresses): almost all of the behaviour is in '
+             'stdlib code that would have to be trusted wholesale, so a contract on RecordHandler.emit / MacAddressLogFilter would prove little; not reached within the budget and '
+             'not replaced by another technique (DESIGN.md section 12.6)',
+    }
+    m['not_applicable'].append({'property_id': i, 'reason': reasons.get(i, 'not reached')})
 json.dump(m, open(os.path.join(V, 'MANIFEST.json'), 'w'), indent=1)
 print('claimed', sorted(CLAIMED))
